@@ -297,6 +297,9 @@ impl io::Write for File {
     }
     fn write_all(&mut self, buf: &[u8]) -> io::Result<()> {
         assert!(self.writable);
+        if std::env::var_os("LSIM_DUMP_WRITES").is_some() {
+            eprintln!("[lsim] write_all {} bytes: {}", buf.len(), buf.iter().map(|b| format!("{b:02x}")).collect::<String>());
+        }
         // split into 1..=max_chunks chunk effects so that "partially written" exists as a state
         let cuts: Vec<usize> = with_fs(|st| {
             let maxc = st.max_chunks.max(1);
